@@ -344,6 +344,9 @@ def str_method(ex, recv, name, args, kwargs, st):
         f = uf(ex, "HEXLIFY", S, S)
         r = f(recv.z)
         st.fact(z3.Length(r) == 2 * z3.Length(recv.z))
+        # bytes.fromhex undoes bytes.hex
+        st.fact(z3.And(uf(ex, "FROMHEX", S, S)(r) == recv.z, uf(ex, "ISHEXSTR", S, B)(r)))
+        ex.assumed.add("bytes.hex / bytes.fromhex: fromhex(x.hex()) == x; fromhex raises ValueError exactly on strings that are not hexadecimal digit pairs (uninterpreted ISHEXSTR, true of every x.hex())")
         return VStr(r)
     raise Unsupported(f"bytes.{name}")
 
@@ -536,6 +539,13 @@ def call_py(ex, obj, name, node, st):
             return single_match(ex, pat, data, st, oname, pos.z if pos is not None else None)
         if oname == "sub":
             return re_sub(ex, args, kw, st)
+    if getattr(obj, "__name__", "") == "fromhex" and getattr(obj, "__self__", None) is bytes:
+        (a,), _ = ex.eval_args(node, st)
+        if not isinstance(a, VStr):
+            raise Unsupported("bytes.fromhex of a non-str")
+        ex.raise_if(st, z3.Not(uf(ex, "ISHEXSTR", S, B)(a.z)), "ValueError", "bytes.fromhex")
+        ex.assumed.add("bytes.hex / bytes.fromhex: fromhex(x.hex()) == x; fromhex raises ValueError exactly on strings that are not hexadecimal digit pairs (uninterpreted ISHEXSTR, true of every x.hex())")
+        return VBytes(uf(ex, "FROMHEX", S, S)(a.z))
     if obj is binascii.a2b_base64:
         (a,), _ = ex.eval_args(node, st)
         flag = fresh("b64_invalid", B)
@@ -706,8 +716,13 @@ def comprehension(ex, node, st, kind):
     gens = node.generators
     it = ex.iter_source(gens[0].iter, st)
     pre = ex.flush(st)
-    if pre:
-        raise Unsupported("raising iteration source inside a comprehension")
+    for rs_, _fl, (exc_, desc_, ln_) in pre:
+        # a raise while evaluating the iteration source: it has to be unreachable (obligation), unless the contract allows the exception
+        from . import builtins_tbl as BT_
+
+        if any(cls in ex.c.raises or cls in ex.c.raises_iff for cls in BT_.exc_supers(exc_)):
+            raise Unsupported("raising iteration source inside a comprehension of a function that may raise")
+        ex.oblige(rs_, "safe", f"{exc_}@L{ln_ - ex.fn.lineno}:{desc_} (comprehension source)", z3.BoolVal(False), ln_)
     n = it["n"]
     # ---- the body for ARBITRARY indices (forall-introduction), one per generator
     sc = st.clone()
@@ -757,6 +772,29 @@ def comprehension(ex, node, st, kind):
             st.assume(m <= n)
     if isinstance(e, VRef):
         return comp_nodes(ex, st, sc, e, A0, m, i)
+    if isinstance(e, VJson):
+        # JSON records built element-wise by a pure callee: the clauses of `comp_each` are proved of the arbitrary element and assumed of all
+        if has_filter:
+            raise Unsupported("filtered comprehension of JSON objects")
+        for f_ in sc.heap:
+            if sc.heap[f_] is not st.heap[f_]:
+                raise Unsupported("comprehension of JSON objects whose body writes the heap")
+        v = sc.clone()
+        v.store["elem"] = e
+        v.store["k_"] = VInt(i)
+        for nm, clause in ex.c.comp_each.items():
+            ex.oblige(v, "each", nm, ex.spec_bool(clause, v), getattr(ex, "cur_line", 0))
+        R = fresh("jsons", ArrII)
+        out = VList(R, m, "json")
+        k = fresh("k", I)
+        view = st.clone()
+        view.in_binder += 1
+        view.store = dict(st.store)
+        view.store["elem"] = VJson(R[k])
+        view.store["k_"] = VInt(k)
+        for nm, clause in ex.c.comp_each.items():
+            st.assume(z3.ForAll([k], z3.Implies(z3.And(0 <= k, k < m), ex.spec_bool(clause, view))))
+        return out
     if isinstance(e, (VInt, VBytes)):
         ek = e.kind
         arr = fresh("comp", z3.ArraySort(I, ELEM_SORT[ek]))
@@ -797,9 +835,12 @@ def comp_nodes(ex, st, sc, e, A0, m, i):
         if sc.heap[f] is not st.heap[f]:
             r = fresh("r", I)
             ex.oblige(sc, "frame/write", f"{f}@comprehension", z3.ForAll([r], z3.Implies(z3.And(0 <= r, r < A0), sc.heap[f][r] == st.heap[f][r])), getattr(ex, "cur_line", 0))
-    each = getattr(ex.c, "ensures_each", {}) or {}
+    each = getattr(ex.c, "comp_each", {}) or getattr(ex.c, "ensures_each", {}) or {}
     v = sc.clone()
-    v.store["node"] = e
+    if not getattr(ex.c, "comp_each", {}):
+        v.store["node"] = e  # ensures_each clauses call the element `node`; comp_each clauses call it `elem` (a local may be called node)
+    v.store["elem"] = e
+    v.store["k_"] = VInt(i)
     v.store["fresh_from"] = VInt(A0)
     for nm, clause in each.items():
         ex.oblige(v, "each", nm, ex.spec_bool(clause, v), getattr(ex, "cur_line", 0))
@@ -824,7 +865,10 @@ def comp_nodes(ex, st, sc, e, A0, m, i):
     view = st.clone()
     view.in_binder += 1
     view.store = dict(st.store)
-    view.store["node"] = VRef(R[k])
+    if not getattr(ex.c, "comp_each", {}):
+        view.store["node"] = VRef(R[k])
+    view.store["elem"] = VRef(R[k])
+    view.store["k_"] = VInt(k)
     view.store["fresh_from"] = VInt(A0)
     for nm, clause in each.items():
         st.assume(z3.ForAll([k], z3.Implies(z3.And(0 <= k, k < m), ex.spec_bool(clause, view))))
